@@ -45,10 +45,17 @@ def svd_case(draw):
             'overwrite': draw(st.booleans()), 'layout': draw(gen.LAYOUT)}
     if klass == 'generic':
         case['ranks'] = [1] + [draw(gen.SMALL_RANK) for _ in range(d - 1)] + [1]
+        if draw(st.sampled_from([False] * 7 + [True])):
+            # a product state built from ONE array used at every site, TT([c] * d): rank-1 bonds, equal modes
+            case['aliased_product'] = True
+            case['rows'] = rows = [min(rows[0], 4)] * d
+            case['ranks'] = [1] * (d + 1)
         case['threshold'] = draw(st.sampled_from([0, 0, 0.0, 1e-12, 1e-10]))
         case['max_rank'] = draw(st.sampled_from([None, None, 4, 6, 50]))
         case['flags'] = [True, True]
         case['provenance'] = draw(st.sampled_from([None, None, None, 'ortho_left_scaled', 'ortho_right_scaled', 'ortho_negated_sum', 'copy_of_ortho_left']))
+        if case.get('aliased_product'):
+            case['provenance'] = None
     else:
         nl = int(np.prod(rows[:index]))
         nr = int(np.prod(rows[index:]))
@@ -193,7 +200,13 @@ def body_svd(case):
             t.cores[-1] = t.cores[-1] * 2.0
         return t
 
-    t = with_history(TT([np.array(c, order='K') for c in cores]))
+    def fresh_tt():
+        if case.get('aliased_product') and case['klass'] == 'generic':
+            c0 = np.array(cores[0], order='K')
+            return TT([c0] * len(cores))
+        return TT([np.array(c, order='K') for c in cores])
+
+    t = with_history(fresh_tt())
     d, idx = t.order, case['index']
     rows = case['rows']
     x = dense.contract(t.cores).reshape(rows)
@@ -228,6 +241,8 @@ def body_svd(case):
     # guard band: no singular value in the ambiguous zone between 'numerically zero' and 'well above every negligible threshold'
     if case.get('near_gauge'):
         lab.add('nearly_orthonormal_sides')
+    if case.get('aliased_product') and case['klass'] == 'generic':
+        lab.add('one_array_at_every_site')
     if case['klass'] == 'illcond':
         numrank = int(np.sum(sig > 1e-13 * s0))          # prescribed spectrum down to 1e-8: everything above rounding is kept
     else:
@@ -277,7 +292,7 @@ def body_svd(case):
     close((U * s) @ V, Mk, 1e-10, s0, 'reconstruction', 'u diag(s) v')
 
     # pinv ----------------------------------------------------------------------------------------------------
-    t2 = with_history(TT([np.array(c, order='K') for c in cores]))
+    t2 = with_history(fresh_tt())
     before2 = build.snapshot(t2)
     if case['max_rank'] is None:
         p = t2.pinv(idx, threshold=th, ortho_l=case['flags'][0], ortho_r=case['flags'][1], overwrite=case['overwrite'])
